@@ -28,7 +28,7 @@ def shards(tier):
 
 def gates(c, tier):
     out = [f"generator never produced class {f}" for f in GATE_FEATURES if c.get("feat:" + f, 0) == 0]
-    for k in ("api:client", "api:server"):
+    for k in ("api:client", "api:server", "unencodable-message-refused"):
         if c.get(k, 0) == 0:
             out.append(f"never exercised {k}")
     return out
@@ -151,9 +151,55 @@ def api_conversation(r, prof):
     return out
 
 
+def unencodable_messages():
+    """Messages with a lone surrogate in one text field, at every nesting level of the writers: no RFC 4511 encoding
+    exists (LDAPString is UTF-8), so pack must fail - bytes returned for them cannot be an encoding of that message."""
+    B = "x\udc80"
+    res = (0, "", "", None)
+    return [
+        ("BindRequest", 1, (3, "cn=" + B, ("simple", "pw")), ()),
+        ("BindRequest", 1, (3, "cn=a", ("sasl", "GSS" + B, b"t")), ()),
+        ("BindResponse", 1, ((49, B, "", None), None), ()),
+        ("BindResponse", 1, ((49, "", "diag" + B, ("ldap://a/",)), None), ()),
+        ("SearchRequest", 2, ("dc=" + B, 2, 0, 0, 0, False, ("present", "cn"), ()), ()),
+        ("SearchRequest", 2, ("dc=x", 2, 0, 0, 0, False, ("and", (("eq", "cn" + B, b"v"), ("present", "sn"))), ()), ()),
+        ("SearchRequest", 2, ("dc=x", 2, 0, 0, 0, False, ("not", ("sub", "cn" + B, b"i", (), None)), ("cn",)), ()),
+        ("SearchRequest", 2, ("dc=x", 2, 0, 0, 0, False, ("ext", "rule" + B, "cn", b"v", True), ("cn",)), ()),
+        ("SearchRequest", 2, ("dc=x", 2, 0, 0, 0, False, ("present", "cn"), ("cn", "sn" + B)), ()),
+        ("SearchResultEntry", 2, ("cn=" + B, ()), ()),
+        ("SearchResultEntry", 2, ("cn=e", (("cn", (b"v",)), ("sn" + B, (b"w",)))), ()),
+        ("SearchResultReference", 2, (("ldap://ok/", "ldap://" + B),), ()),
+        ("SearchResultDone", 2, ((10, "", "", ("ldap://" + B,)),), ()),
+        ("ExtendedRequest", 3, ("1.2." + B, None), ()),
+        ("ExtendedResponse", 3, (res, "1.2." + B, b"v"), ()),
+        ("ExtendedResponse", 3, ((0, "", B, None), None, None), ()),
+        ("ExtendedRequest", 3, ("1.2.3", None), (("1.2.3." + B, True, b"v", None),)),
+        ("SearchResultDone", 2, (res,), (("1.2.840.113556.1.4.319", False, None, ("paged", 5, b"c")), ("1.2.9" + B, False, None, None))),
+    ]
+
+
+def check_unencodable(m_abs):
+    try:
+        m = av.build(m_abs)
+    except Exception:
+        return []
+    try:
+        data = m.pack(sl._messages.PackingOptions())
+    except Exception:
+        return []
+    return [("bytes-for-a-message-that-has-no-encoding:" + m_abs[0], f"pack returned {len(bytes(data))} octets ({bytes(data)[:48].hex()}...) for a message whose text cannot be encoded as UTF-8")]
+
+
 def run_shard(ctx: Ctx, acc: Acc):
     n = ctx.scale(120_000, 3_000_000)
     prof = gv.THOROUGH if ctx.thorough else gv.QUICK
+    if ctx.shard % 4 == 0:
+        for m_abs in unencodable_messages():
+            acc.case()
+            acc.count("unencodable-message-refused")
+            acc.nontrivial("unencodable", m_abs)
+            for key, what in check_unencodable(m_abs):
+                acc.violation(key, what, {"unencodable": m_abs})
     for i in range(n):
         r = ctx.rng(i)
         m_abs = gv.g_message(r, prof, op=gv.OPS[i % 9] if i < 900 else None)
@@ -187,6 +233,8 @@ def run_shard(ctx: Ctx, acc: Acc):
 
 
 def replay(w):
+    if "unencodable" in w:
+        return check_unencodable(to_tuple(w["unencodable"]))
     if "message" in w:
         return check_one(to_tuple(w["message"]))
     if "bytes" in w and w.get("expected") is not None:
